@@ -95,3 +95,21 @@ def final_count_var(b, loop, v):
         return False
     (pi, ti), (ps, ts) = init[0], step[0]
     return norm(ti) == ('const', 0) and b.node_dominates(pi[0], loop["header"]) and counts_iterations(b, loop, ps, ts)
+
+
+def chain_len_term(b, loop, t):
+    """t == ExactSizeIterator::len(&X) where X is the very iterator value this loop then consumes (`let it = ..; let n = it.len();
+    for x in it { .. }`): the number of items the loop will see — and, when the loop can only be left through the None arm, has seen"""
+    t = norm(t)
+    if not (t[0] == 'call' and len(t[2]) == 1 and canon(t[1]).split("::")[-1] == "len" and "ExactSizeIterator" in str(t[1])):
+        return False
+    x = norm(t[2][0])
+    chain = norm(loop["chain"])
+    while chain[0] == 'call' and chain[2] and canon(chain[1]).split("::")[-1] in ("into_iter", "by_ref"):
+        chain = norm(chain[2][0])
+    return x == chain and loop["exits_only_on_none"]
+
+
+def counts_items(b, loop, t):
+    """t is the number of items this loop handles: a final_count_var or the ExactSizeIterator::len of the consumed iterator"""
+    return final_count_var(b, loop, t) or chain_len_term(b, loop, t)
